@@ -158,7 +158,7 @@ def execute(scn):
                 why = 'MBAP length %d inconsistent with the PDU (shorter than its own count fields require)' % (len(d['pdu'] or b'') + 1)
             elif want != -1 and want != len(d['pdu'] or b''):
                 why = 'MBAP length %d inconsistent with the PDU (its fields imply %d bytes)' % (len(d['pdu']) + 1, want + 1)
-        if framing == 'ascii' and why.startswith('no valid frame'):
+        if framing == 'ascii' and (why.startswith('no valid frame') or why.startswith('header')):
             import re
             for m in re.finditer(rb':([^:]*?)\r\n', given):
                 if re.search(rb'[^0-9A-Fa-f]', m.group(1)):
